@@ -9,6 +9,7 @@ import (
 	"encoding/hex"
 	"fmt"
 	"io"
+	"iter"
 	"reflect"
 	"sort"
 	"strings"
@@ -74,6 +75,9 @@ type Fixture struct {
 	Cids   []cid.Cid
 	InvKey *fixtures.Key
 	DlgKey []*fixtures.Key
+	// sequences obtained ONCE from the shared tokens and kept: ranging over such a value is a read-only
+	// operation like any other, however often and from however many goroutines it is done
+	ArgsSeq, MetaSeq, DlgMetaSeq iter.Seq2[string, datamodel.Node]
 }
 
 func synthCid(label string) cid.Cid {
@@ -179,6 +183,7 @@ func NewFixture(v Variant) *Fixture {
 		}
 	}
 	f.Inv = inv
+	f.ArgsSeq, f.MetaSeq, f.DlgMetaSeq = inv.Arguments().Iter(), inv.Meta().Iter(), f.Dlgs[0].Meta().Iter()
 	return f
 }
 
@@ -239,6 +244,15 @@ func sortedLines(s string) string {
 
 // Op is one read-only operation on the shared tokens; it returns a canonical
 // rendering of its result.
+func rangeKept(seq iter.Seq2[string, datamodel.Node], s Seam) string {
+	var r []string
+	for k, v := range seq {
+		point(s)
+		r = append(r, k+"="+nodeHex(v))
+	}
+	return strings.Join(r, ",")
+}
+
 type Op struct {
 	Name string
 	Run  func(f *Fixture, s Seam) string
@@ -333,6 +347,9 @@ func Ops() []Op {
 			return strings.Join(r, ",")
 		}},
 		{"inv.Meta.String", func(f *Fixture, s Seam) string { return sortedLines(f.Inv.Meta().String()) }},
+		{"range(kept inv.Arguments.Iter sequence)", func(f *Fixture, s Seam) string { return rangeKept(f.ArgsSeq, s) }},
+		{"range(kept inv.Meta.Iter sequence)", func(f *Fixture, s Seam) string { return rangeKept(f.MetaSeq, s) }},
+		{"range(kept dlg.Meta.Iter sequence)", func(f *Fixture, s Seam) string { return rangeKept(f.DlgMetaSeq, s) }},
 		{"inv.Meta.Get+Clone", func(f *Fixture, s Seam) string {
 			v, err := f.Inv.Meta().GetString("a")
 			c := f.Inv.Meta().WriteableClone()
